@@ -24,7 +24,9 @@ Section Fits.
       end
     | VTuple l | VTupleStruct l =>
       match t with
-      | TTuple _ F => (fix all (i : nat) (l : list Value) : Prop := match l with [] => True | x :: r => fits x (nth_tracer F i) /\ all (S i) r end) 0 l
+      | TTuple _ F =>
+        (fix all (i : nat) (l : list Value) : Prop := match l with [] => True | x :: r => fits x (nth_tracer F i) /\ all (S i) r end) 0 l /\
+        (forall i, length l <= i -> i < length F -> t_nullable (nth_tracer F i) = true)   (* positions a shorter tuple lacks are nullable *)
       | _ => False
       end
     | VMap kvs =>
@@ -59,7 +61,9 @@ Section Fits.
       match t with
       | TUnion _ V => (0 <= i)%Z /\ exists T, get_variant V (Z.to_nat i) = Some (nm, T) /\
           match T with
-          | TTuple _ F => (fix all (i : nat) (l : list Value) : Prop := match l with [] => True | x :: r => fits x (nth_tracer F i) /\ all (S i) r end) 0 l
+          | TTuple _ F =>
+            (fix all (i : nat) (l : list Value) : Prop := match l with [] => True | x :: r => fits x (nth_tracer F i) /\ all (S i) r end) 0 l /\
+            (forall i, length l <= i -> i < length F -> t_nullable (nth_tracer F i) = true)
           | _ => False
           end
       | _ => False
@@ -92,8 +96,9 @@ Section Fits.
       replace (i + S j) with (S i + j) by lia. apply (proj1 (IH (S i)) H2 j x Hx).
     - split; [specialize (H 0 y eq_refl); rewrite Nat.add_0_r in H; exact H|]. apply IH. intros j x Hx. replace (S i + j) with (i + S j) by lia. apply (H (S j) x Hx).
   Qed.
-  Lemma fits_tuple l n F : fits (VTuple l) (TTuple n F) <-> forall j x, nth_error l j = Some x -> fits x (nth_tracer F j).
-  Proof. cbn [fits]. apply (fits_tuple_gen F l 0). Qed.
+  Lemma fits_tuple l n F : fits (VTuple l) (TTuple n F) <->
+    (forall j x, nth_error l j = Some x -> fits x (nth_tracer F j)) /\ (forall i, length l <= i -> i < length F -> t_nullable (nth_tracer F i) = true).
+  Proof. cbn [fits]. rewrite (fits_tuple_gen F l 0). reflexivity. Qed.
 
   Lemma fits_fields fs : forall fa,
     (fix all (fa : list (bytes * Value)) : Prop :=
@@ -300,11 +305,17 @@ Section Fits.
         assert (Htc : forall a, is_container (tup a) = true) by (intros [[|] ?]; reflexivity).
         rewrite (strip0 o d vs) in H1 by (rewrite Hc; first [apply containers_map; exact Htc|discriminate]). rewrite Hc, tups_collection in H1.
         destruct (omk_ok_inv _ _ _ H1) as (u & E1 & ->).
-        destruct (tuple_projection o d (map snd (x0 :: r0)) false u ltac:(discriminate) E1) as (F & -> & _ & Hcol).
+        destruct (tuple_projection o d (map snd (x0 :: r0)) false u ltac:(discriminate) E1) as (F & -> & HlenF & Hcol).
         apply fits_from_cores. intros c Hin. rewrite Hc in Hin. apply in_map_iff in Hin as ([b l] & <- & Hx).
         assert (Hl : fits (VTuple l) (TTuple false F)).
-        { apply fits_tuple. intros j x Hjx. pose proof (IH (S d) _ _ (Hh j) (Hcol j)) as Hall. rewrite Forall_forall in Hall. apply Hall.
-          unfold col. apply in_flat_map. exists l. split; [apply in_map_iff; exists (b, l); split; [reflexivity|exact Hx]|rewrite Hjx; left; reflexivity]. }
+        { assert (Hlin : In l (map snd (x0 :: r0))) by (apply in_map_iff; exists (b, l); split; [reflexivity|exact Hx]).
+          apply fits_tuple. split.
+          - intros j x Hjx. destruct (Hcol j) as (T0 & R0 & ->). apply fits_mk. pose proof (IH (S d) _ _ (Hh j) R0) as Hall. rewrite Forall_forall in Hall. apply Hall.
+            unfold col. apply in_flat_map. exists l. split; [exact Hlin|rewrite Hjx; left; reflexivity].
+          - intros i Hli HiF. destruct (Hcol i) as (T0 & _ & ->). rewrite HlenF in HiF.
+            assert (Ef : tflag i (map snd (x0 :: r0)) = true).
+            { unfold tflag. apply andb_true_iff. split; [apply Nat.ltb_lt, HiF|]. unfold tmiss. apply existsb_exists. exists l. split; [exact Hlin|apply Nat.leb_le, Hli]. }
+            rewrite Ef. apply nullable_mk_true. }
         destruct b; exact Hl.
       + (* enum variants *)
         destruct (cores vs) as [|c0 r0] eqn:Hc.
